@@ -60,7 +60,8 @@ def _format_and_process_date(format_code, date, tmp, process_next):
         else format_code(date)
     )
     if process_next:
-        with suppress(ValueError):
+        # roman numerals exist for 1..4999 only: other numbers stay as they are
+        with suppress(ValueError, roman.RomanError):
             res = process_next(res)
         process_next = None
     tmp.append(res)
